@@ -50,6 +50,7 @@ def is_known(f):
             continue
         if all(s in fn for s in m.get('function', [])) and all(s.lower() in rel.lower() for s in m.get('relation', [])) \
                 and all(s.lower() in str(f.get('why', '')).lower() for s in m.get('why', [])) \
+                and ('observed_abs_below' not in m or (isinstance(f.get('observed'), (int, float)) and abs(f['observed']) < m['observed_abs_below'])) \
                 and all(s in json.dumps(f.get('input'), default=str) for s in m.get('input_contains', [])) \
                 and all(s.lower() in json.dumps(f.get('observed'), default=str).lower() for s in m.get('observed_contains', [])):
             return k
@@ -193,7 +194,61 @@ def sw_multipitch_self(rng, n):
     return out
 
 
-SWEEPS = [sw_multipitch_self, sw_beat, sw_pattern_alignment_tempo, sw_events, sw_transcription, sw_melody, sw_multipitch, sw_hierarchy, sw_segment, sw_keychord, sw_chord, sw_intervals]
+# keys of evaluate() that are NOT proportion-type scores: (lower bound, upper bound) or None for "any finite value"
+_SPECIAL = {
+    'Ref-to-est deviation': (0, None), 'Est-to-ref deviation': (0, None), 'mae': (0, None), 'aae': (0, None),
+    'Mutual Information': (0, None), 'Adjusted Mutual Information': (None, 1), 'Adjusted Rand Index': (None, 1),
+    'Average_Overlap_Ratio': (None, 1), 'Average_Overlap_Ratio_no_offset': (None, 1),
+    'P-score': None, 'Cemgil': None, 'Cemgil Best Metric Level': None,     # beat: conditional / known findings; tempo P-score handled below
+    'F': None, 'P': None,                                                    # pattern standard_FPR: known finding
+    'perceptual': None,
+}
+
+
+@_quiet
+def sw_evaluate_ranges(rng, n):
+    """every evaluate(): each documented proportion lies in [0, 1], errors/deviations are >= 0, all finite (C01)"""
+    import importlib
+    import math
+    from harness import gen_inputs as G
+    from harness.oracles.evaluate import PROBES, describe
+    out = []
+    mods = [m for m in G.TASKS if m != 'separation']
+    for _ in range(max(1, n // 25)):
+        for m in mods:
+            mod = importlib.import_module('mir_eval.' + m)
+            args = G.TASKS[m](rng)
+            kw = dict(rng.choice(PROBES[m]))
+            try:
+                sc = mod.evaluate(*args, **kw)
+            except Exception:  # noqa  (C14's business)
+                continue
+            for k, v in sc.items():
+                try:
+                    x = float(v)
+                except Exception:  # noqa
+                    continue
+                lo, hi = 0.0, 1.0
+                if k in _SPECIAL and not (m == 'tempo' and k == 'P-score'):
+                    if _SPECIAL[k] is None:
+                        continue
+                    lo, hi = _SPECIAL[k]
+                if 'Error' in k:
+                    lo, hi = 0.0, None
+                if math.isnan(x):
+                    if m == 'segment' and ('deviation' in k or 'Pairwise' in k or k in ('Rand Index', 'Adjusted Mutual Information', 'Normalized Mutual Information')):
+                        continue        # NaN deviation for a side without boundaries is documented; pairwise / AMI NaN are listed findings
+                    bad = True
+                else:
+                    bad = math.isinf(x) or (lo is not None and x < lo - 1e-9) or (hi is not None and x > hi + 1e-9)
+                if bad:
+                    out.append({'function': m + '.evaluate', 'relation': 'score %r is finite and in [0, 1] (errors/deviations >= 0)' % k,
+                                'input': describe(args, kw), 'observed': x, 'why': 'expected range [%s, %s]' % (lo, hi)})
+                    return out
+    return out
+
+
+SWEEPS = [sw_evaluate_ranges, sw_multipitch_self, sw_beat, sw_pattern_alignment_tempo, sw_events, sw_transcription, sw_melody, sw_multipitch, sw_hierarchy, sw_segment, sw_keychord, sw_chord, sw_intervals]
 
 
 def register(fn):
